@@ -135,5 +135,18 @@ if __name__ == '__main__':
         sys.exit(verify(sys.argv[2]))
     elif sys.argv[1] == 'full':
         full(sys.argv[2], sys.argv[3:])
+    elif sys.argv[1] == 'recheck':
+        # re-run checks after strengthening them; the earlier outcome is kept under 'earlier_checks'
+        sd = os.path.abspath(sys.argv[2])
+        mp = os.path.join(sd, 'meta.json')
+        meta = json.load(open(mp))
+        res = check(sd, sys.argv[3:])
+        for k in res:
+            if k in meta.get('checks', {}) and meta['checks'][k]['status'] != res[k]['status']:
+                meta.setdefault('earlier_checks', {}).setdefault(k, []).append(meta['checks'][k])
+        meta.setdefault('checks', {}).update(res)
+        meta['caught_by'] = sorted(k for k, v in meta['checks'].items() if v['status'] == 'CAUGHT')
+        with open(mp, 'w') as f:
+            json.dump(meta, f, indent=1)
     else:
         check(sys.argv[2], sys.argv[3:])
